@@ -27,7 +27,7 @@
                  last_update to the clock, which starts at 1000, and the purge zeroes both).                            *)
 From Coq Require Import List Bool ZArith.
 Import ListNotations.
-From RtrV Require Import Conc.RwLock Conc.ConcProofs Rtr.RtrModel Conc.Reload.
+From RtrV Require Import Conc.RwLock Conc.ConcProofs Rtr.RtrModel Conc.LockCheck Conc.Reload.
 
 Section Generic.
 Variable K : Type.
